@@ -229,3 +229,160 @@ Proof.
   intros p n lo hi Hn Hlo Hhi [H1 H2]. destruct (of_int_bnd p n Hn) as [_ E]. rewrite E.
   split; [now apply RN_ge_bpow | now apply RN_le_bpow].
 Qed.
+
+Lemma bpow_double : forall k, bpow radix2 (k + 1) = bpow radix2 k + bpow radix2 k.
+Proof. intros k. rewrite bpow_plus_1. change (IZR radix2) with 2. ring. Qed.
+
+(** ** durations in seconds, the exponent handed to powf *)
+Lemma NS_range : bpow radix2 29 <= IZR (Z.of_N NS_PER_SEC) <= bpow radix2 30.
+Proof.
+  unfold NS_PER_SEC. change (bpow radix2 29) with (IZR (2 ^ 29)). change (bpow radix2 30) with (IZR (2 ^ 30)).
+  split; apply IZR_le; cbn; lia.
+Qed.
+
+(** [dur_secs d] for a duration below 2^64 ns: finite, at most 2^65, and at least 2^-30 when d >= 1 *)
+Lemma dur_secs_bnd : forall p d, (d < U64)%N ->
+  bnd (dur_secs (FL.arp p) d) 65 /\
+  ((1 <= d)%N -> bpow radix2 (-30) <= B2R (dur_secs (FL.arp p) d)).
+Proof.
+  intros p d Hd. unfold dur_secs.
+  assert (Hq : (d / NS_PER_SEC < U64)%N).
+  { apply N.le_lt_trans with d; [|exact Hd]. apply N.div_le_upper_bound; [discriminate|].
+    unfold NS_PER_SEC. lia. }
+  assert (Hm : (d mod NS_PER_SEC < NS_PER_SEC)%N) by (apply N.mod_lt; discriminate).
+  assert (Hm64 : (d mod NS_PER_SEC < U64)%N) by (unfold NS_PER_SEC, U64 in *; lia).
+  destruct (of_int_bnd p (d / NS_PER_SEC) Hq) as [Bq Eq].
+  destruct (of_int_bnd p (d mod NS_PER_SEC) Hm64) as [Bm Em].
+  assert (Bm30 : bnd (of_int (FL.arp p) (d mod NS_PER_SEC)) 30).
+  { destruct Bm as (Fm & Hm0 & _). split; [exact Fm|]. split; [exact Hm0|].
+    rewrite Em. apply RN_le_bpow; [lia|]. apply Rle_trans with (2 := proj2 NS_range).
+    apply IZR_le. lia. }
+  assert (HNS64 : (NS_PER_SEC < U64)%N) by (unfold NS_PER_SEC, U64; lia).
+  destruct (of_int_bnd p NS_PER_SEC HNS64) as [(FN & _) _].
+  destruct (of_int_range p NS_PER_SEC 29 30 HNS64 ltac:(lia) ltac:(lia) NS_range) as [HN29 HN30].
+  destruct (fdiv_bnd _ _ 30 29 Bm30 FN HN29 ltac:(lia)) as [Bf Ef].
+  change (30 - 29)%Z with 1%Z in Bf.
+  change (div (FL.arp p)) with fdiv. change (add (FL.arp p)) with fadd.
+  destruct Bq as (Fq & Hq0 & Hq1). destruct Bf as (Ff & Hf0 & Hf1).
+  assert (Hsum : B2R (of_int (FL.arp p) (d / NS_PER_SEC)) +
+                 B2R (fdiv (of_int (FL.arp p) (d mod NS_PER_SEC)) (of_int (FL.arp p) NS_PER_SEC))
+                 <= bpow radix2 65).
+  { change 65%Z with (64 + 1)%Z. rewrite bpow_double.
+    assert (bpow radix2 1 <= bpow radix2 64) by (apply bpow_le; lia). lra. }
+  destruct (fadd_bnd _ _ 65 Fq Ff Hq0 Hf0 Hsum ltac:(lia)) as [Bs Es].
+  split; [exact Bs|].
+  intros H1. rewrite Es. apply RN_ge_bpow; [lia|].
+  destruct (N.eq_dec (d / NS_PER_SEC) 0) as [Z | NZ].
+  - (* below one second: the fraction is at least 1 / 2^30 *)
+    assert (Hm1 : (1 <= d mod NS_PER_SEC)%N).
+    { assert (E := N.div_mod d NS_PER_SEC ltac:(discriminate)). rewrite Z in E. lia. }
+    assert (Hmr : 1 <= B2R (of_int (FL.arp p) (d mod NS_PER_SEC))).
+    { rewrite Em. change 1 with (bpow radix2 0). apply RN_ge_bpow; [lia|].
+      change (bpow radix2 0) with (IZR 1). apply IZR_le. lia. }
+    assert (Hfr : bpow radix2 (-30) <=
+              B2R (of_int (FL.arp p) (d mod NS_PER_SEC)) / B2R (of_int (FL.arp p) NS_PER_SEC)).
+    { assert (HNpos : 0 < B2R (of_int (FL.arp p) NS_PER_SEC)).
+      { apply Rlt_le_trans with (2 := HN29). apply bpow_gt_0. }
+      apply Rle_trans with (1 / B2R (of_int (FL.arp p) NS_PER_SEC)).
+      - rewrite bpow_opp. unfold Rdiv. rewrite Rmult_1_l.
+        apply Rinv_le; [exact HNpos | exact HN30].
+      - unfold Rdiv. apply Rmult_le_compat_r; [left; now apply Rinv_0_lt_compat | exact Hmr]. }
+    rewrite Ef. assert (H2 := RN_ge_bpow _ (-30) ltac:(lia) Hfr). lra.
+  - assert (Hq1' : 1 <= B2R (of_int (FL.arp p) (d / NS_PER_SEC))).
+    { rewrite Eq. change 1 with (bpow radix2 0). apply RN_ge_bpow; [lia|].
+      change (bpow radix2 0) with (IZR 1). apply IZR_le. lia. }
+    assert (bpow radix2 (-30) <= 1) by (change 1 with (bpow radix2 0); apply bpow_le; lia).
+    lra.
+Qed.
+
+Lemma W15_range : bpow radix2 3 <= IZR (Z.of_N EST_WEIGHTING_SECONDS) <= bpow radix2 4.
+Proof.
+  unfold EST_WEIGHTING_SECONDS. change (bpow radix2 3) with (IZR 8). change (bpow radix2 4) with (IZR 16).
+  split; apply IZR_le; cbn; lia.
+Qed.
+
+(** the exponent [age / 15.0]: finite, non-negative, at least 2^-34 when the age is >= 1 ns *)
+Lemma exponent_bnd : forall p d, (d < U64)%N ->
+  let x := div (FL.arp p) (dur_secs (FL.arp p) d) (of_int (FL.arp p) EST_WEIGHTING_SECONDS) in
+  bnd x 62 /\ ((1 <= d)%N -> bpow radix2 (-34) <= B2R x).
+Proof.
+  intros p d Hd x. destruct (dur_secs_bnd p d Hd) as [Bd Hlow].
+  assert (H15 : (EST_WEIGHTING_SECONDS < U64)%N) by (unfold EST_WEIGHTING_SECONDS, U64; lia).
+  destruct (of_int_bnd p EST_WEIGHTING_SECONDS H15) as [(F15 & _) _].
+  destruct (of_int_range p EST_WEIGHTING_SECONDS 3 4 H15 ltac:(lia) ltac:(lia) W15_range) as [H3 H4].
+  destruct (fdiv_bnd _ _ 65 3 Bd F15 H3 ltac:(lia)) as [Bx Ex].
+  change (65 - 3)%Z with 62%Z in Bx. split; [exact Bx|].
+  intros H1. unfold x. change (div (FL.arp p)) with fdiv. rewrite Ex. apply RN_ge_bpow; [lia|].
+  specialize (Hlow H1).
+  assert (Hpos : 0 < B2R (of_int (FL.arp p) EST_WEIGHTING_SECONDS)).
+  { apply Rlt_le_trans with (2 := H3). apply bpow_gt_0. }
+  change (-34)%Z with (-30 + - 4)%Z. rewrite bpow_plus, bpow_opp. unfold Rdiv.
+  apply Rmult_le_compat; try assumption.
+  - apply bpow_ge_0.
+  - left. apply Rinv_0_lt_compat, bpow_gt_0.
+  - apply Rinv_le; assumption.
+Qed.
+
+(** what the supplied [powf] has to satisfy: for a finite non-negative exponent the value is a
+    weight (finite, in [0,1]), and it is below 1 for exponents >= 2^-34 (0.1^(2^-34) = 1 - 1.3e-10
+    is far from rounding to 1; ages are >= 1 ns, i.e. exponents >= 6.6e-11 > 2^-34) *)
+Definition pow_ok (p : F -> F) : Prop :=
+  forall x, is_finite x = true -> 0 <= B2R x ->
+    bnd (p x) 0 /\ (bpow radix2 (-34) <= B2R x -> B2R (p x) < 1).
+
+Lemma weight_bnd : forall p d, pow_ok p -> (d < U64)%N ->
+  bnd (est_weight (FL.arp p) (dur_secs (FL.arp p) d)) 0 /\
+  ((1 <= d)%N -> B2R (est_weight (FL.arp p) (dur_secs (FL.arp p) d)) < 1).
+Proof.
+  intros p d Hp Hd. unfold est_weight. destruct (exponent_bnd p d Hd) as [(Fx & Hx0 & _) Hlow].
+  cbn [pow_base FL.arp]. destruct (Hp _ Fx Hx0) as [Hw Hlt]. split; [exact Hw|].
+  intros H1. apply Hlt. now apply Hlow.
+Qed.
+
+(** the normaliser 1 - weight(age): in [2^-53, 1] for every age >= 1 ns *)
+Lemma total_weight_bnd : forall p d, pow_ok p -> (d < U64)%N -> (1 <= d)%N ->
+  let tw := sub (FL.arp p) (fone (FL.arp p)) (est_weight (FL.arp p) (dur_secs (FL.arp p) d)) in
+  bnd tw 0 /\ bpow radix2 (-53) <= B2R tw.
+Proof.
+  intros p d Hp Hd H1 tw. destruct (weight_bnd p d Hp Hd) as [Hw Hlt].
+  unfold tw. change (sub (FL.arp p)) with fsub. change (fone (FL.arp p)) with fone64.
+  split; [apply (fsub_one_bnd _ Hw) | apply (fsub_one_pos _ Hw (Hlt H1))].
+Qed.
+
+(** ** QUERY: steps_per_second is finite and non-negative on every bounded state *)
+Definition KS : Z := 95.   (* smoothed <= 2^95 *)
+Definition KD : Z := 149.  (* double_smoothed <= 2^149 *)
+Definition state_bnd (e : est F) : Prop := bnd (sm e) KS /\ bnd (dsm e) KD.
+
+Theorem fl_sps_finite_nonneg : forall p (e : est F) now,
+  pow_ok p -> state_bnd e -> (now < U64)%N -> (start_time e < now)%N ->
+  bnd (est_sps (FL.arp p) e now) 203.
+Proof.
+  intros p e now Hp [Hs Hd] Hn Hst. unfold est_sps. cbv zeta.
+  assert (H1 : (since now (prev_time e) < U64)%N) by (unfold since; lia).
+  assert (H2 : (since now (start_time e) < U64)%N) by (unfold since; lia).
+  assert (H3 : (1 <= since now (start_time e))%N) by (unfold since; lia).
+  destruct (weight_bnd p _ Hp H1) as [Hw _].
+  destruct (total_weight_bnd p _ Hp H2 H3) as [(Ft & _) Htlow].
+  set (w := est_weight (FL.arp p) (dur_secs (FL.arp p) (since now (prev_time e)))) in *.
+  set (tw := sub (FL.arp p) (fone (FL.arp p))
+               (est_weight (FL.arp p) (dur_secs (FL.arp p) (since now (start_time e))))) in *.
+  change (mul (FL.arp p)) with fmul. change (div (FL.arp p)) with fdiv.
+  change (add (FL.arp p)) with fadd. change (sub (FL.arp p)) with fsub.
+  change (fone (FL.arp p)) with fone64. change (T (FL.arp p)) with F in *.
+  unfold KS, KD in *.
+  destruct (fmul_bnd _ _ 95 0 Hs Hw ltac:(lia)) as [Bsw _].
+  destruct (fdiv_bnd _ _ (95 + 0) (-53) Bsw Ft Htlow ltac:(lia)) as [Bsps _].
+  destruct (fsub_one_bnd w Hw) as [Bomw _].
+  destruct (fmul_bnd _ _ _ 0 Bsps Bomw ltac:(lia)) as [Bt3 _].
+  destruct (fmul_bnd _ _ 149 0 Hd Hw ltac:(lia)) as [Bdw _].
+  change (95 + 0 - -53 + 0)%Z with 148%Z in Bt3. change (149 + 0)%Z with 149%Z in Bdw.
+  destruct Bdw as (Fdw & Hdw0 & Hdw1). destruct Bt3 as (Ft3 & Ht30 & Ht31).
+  assert (Hsum : B2R (fmul (dsm e) w) +
+                 B2R (fmul (fdiv (fmul (sm e) w) tw) (fsub fone64 w)) <= bpow radix2 150).
+  { change 150%Z with (149 + 1)%Z. rewrite bpow_double.
+    assert (bpow radix2 148 <= bpow radix2 149) by (apply bpow_le; lia). lra. }
+  destruct (fadd_bnd _ _ 150 Fdw Ft3 Hdw0 Ht30 Hsum ltac:(lia)) as [Bdsps _].
+  destruct (fdiv_bnd _ _ 150 (-53) Bdsps Ft Htlow ltac:(lia)) as [Bres _].
+  exact Bres.
+Qed.
